@@ -40,7 +40,31 @@ struct SlotE {
     disabled: bool,
 }
 
-type BoxFut = Pin<Box<dyn Future<Output = ()> + Send>>;
+/// A spawned task; the plain `Instrumented` wrappers can also be taken apart again with `into_inner`.
+trait TaskFut: Future<Output = ()> + Send {
+    /// `Instrumented::into_inner` then drop the bare future; false if this wrapper has no such operation
+    fn unwrap_inner(self: Pin<Box<Self>>) -> bool;
+}
+impl TaskFut for tracing::instrument::Instrumented<BodyFut> {
+    fn unwrap_inner(self: Pin<Box<Self>>) -> bool {
+        let inner: BodyFut = (*Pin::into_inner(self)).into_inner();
+        drop(inner);
+        true
+    }
+}
+impl TaskFut for tracing_futures::Instrumented<BodyFut> {
+    fn unwrap_inner(self: Pin<Box<Self>>) -> bool {
+        let inner: BodyFut = (*Pin::into_inner(self)).into_inner();
+        drop(inner);
+        true
+    }
+}
+impl TaskFut for tracing::instrument::WithDispatch<tracing::instrument::Instrumented<BodyFut>> {
+    fn unwrap_inner(self: Pin<Box<Self>>) -> bool {
+        false
+    }
+}
+type BoxFut = Pin<Box<dyn TaskFut>>;
 struct TaskE {
     fut: BoxFut,
     uid: u64,
@@ -445,6 +469,21 @@ fn exec(op: &Value) {
                 }
             }
         }
+        "into_inner" => {
+            let task = op["task"].as_u64().unwrap_or(0) as usize % NTASKS;
+            let te = m(|mo| mo.tasks[task].take());
+            if let Some(te) = te {
+                if te.with_dispatch {
+                    m(|mo| mo.tasks[task] = Some(te));
+                } else {
+                    // taking the wrapper apart releases the span handle and nothing else: the span is not
+                    // entered for the drop of a future that is handed back to the caller
+                    expect(te.k, "try_close", te.uid, 0);
+                    let done = te.fut.unwrap_inner();
+                    assert!(done);
+                }
+            }
+        }
         "cancel" => {
             let task = op["task"].as_u64().unwrap_or(0) as usize % NTASKS;
             let te = m(|mo| mo.tasks[task].take());
@@ -574,7 +613,7 @@ impl Engine for SpanEngine {
         &["C03"]
     }
     fn rule(&self, _p: &str) -> String {
-        "program over handle slots {new (contextual/explicit/root parent), clone, drop, entered/exit/guard drop in any order, nested in_scope/enter scopes incl. panics, record, follows_from, Span::current, or_current, switch the thread's default to the other collector or none, spawn an instrumented task (tracing Instrument, in_current_span, with_collector, tracing-futures) whose body runs such ops with yield points, poll it on any thread, cancel it} executed as a seeded total order on 1-3 threads; non-trivial = at least one task polled on a thread other than the one that spawned it or cancelled mid-way, and at least one operation executed under a default different from the span's own collector; distinct = distinct plan digest".into()
+        "program over handle slots {new (contextual/explicit/root parent), clone, drop, entered/exit/guard drop in any order, nested in_scope/enter scopes incl. panics, record, follows_from, Span::current, or_current, switch the thread's default to the other collector or none, spawn an instrumented task (tracing Instrument, in_current_span, with_collector, tracing-futures) whose body runs such ops with yield points, poll it on any thread, cancel it, take it apart again with into_inner} executed as a seeded total order on 1-3 threads, under collectors that keep ids on clone_span or (a third of the runs) hand out a fresh id per handle; non-trivial = at least one task polled on a thread other than the one that spawned it or cancelled mid-way, and at least one operation executed under a default different from the span's own collector; distinct = distinct plan digest".into()
     }
     fn components(&self) -> Value {
         json!({"real": ["tracing::Span, Entered/EnteredSpan guards, in_scope", "tracing::instrument::{Instrumented, WithDispatch}", "tracing_futures::Instrumented", "tracing-core dispatch"],
@@ -604,27 +643,30 @@ impl Engine for SpanEngine {
                 80..=83 => json!({"t": t, "op": "switch_default", "k": *rng.pick(&[1i64, 1, -1, 0])}),
                 84..=86 => json!({"t": t, "op": "restore_default"}),
                 87..=91 => json!({"t": t, "op": "spawn", "task": rng.below(NTASKS as u64), "slot": slot, "wrap": *rng.pick(&["instrument", "instrument", "tf", "with_dispatch", "in_current"]), "body": gen_body(&mut rng, 0, true)}),
-                92..=97 => json!({"t": t, "op": "poll", "task": rng.below(NTASKS as u64)}),
+                92..=95 => json!({"t": t, "op": "poll", "task": rng.below(NTASKS as u64)}),
+                96..=97 => json!({"t": t, "op": "into_inner", "task": rng.below(NTASKS as u64)}),
                 _ => json!({"t": t, "op": "cancel", "task": rng.below(NTASKS as u64)}),
             };
             steps.push(st);
         }
         let sched = Sched::op_order(rng.next_u64());
-        json!({"engine": "span", "prop": g.prop, "mode": g.mode, "cfg": {"threads": nthreads, "thr0": *rng.pick(&[4u64, 4, 3, 5])}, "steps": steps, "sched": serde_json::to_value(&sched).unwrap()})
+        json!({"engine": "span", "prop": g.prop, "mode": g.mode, "cfg": {"threads": nthreads, "thr0": *rng.pick(&[4u64, 4, 3, 5]), "handle_ids": rng.chance(1, 3)}, "steps": steps, "sched": serde_json::to_value(&sched).unwrap()})
     }
 
     fn execute(&self, plan: &Value) -> RunResult {
         let sched = plan_sched(plan);
         let nthreads = plan["cfg"]["threads"].as_u64().unwrap_or(1).max(1) as usize;
         let thr0 = plan["cfg"]["thr0"].as_u64().unwrap_or(4) as u8;
+        let hid = plan["cfg"]["handle_ids"].as_bool().unwrap_or(false);
         let steps: Vec<Value> = plan["steps"].as_array().cloned().unwrap_or_default();
         std::panic::set_hook(Box::new(|_| {}));
         let steps2 = steps.clone();
         let body = move || {
             let f0 = FilterSpec { thr: thr0, targets: 15, mode: 0, dyn_targets: 0, thr2: 5, targets2: 15, hint: 0 };
             let f1 = FilterSpec::accept_all();
-            let c0 = Dispatch::new(RecCollect::new(0, f0.clone()));
-            let c1 = Dispatch::new(RecCollect::new(1, f1.clone()));
+            let mk = |k: usize, f: FilterSpec| if hid { RecCollect::new(k, f).with_handle_ids() } else { RecCollect::new(k, f) };
+            let c0 = Dispatch::new(mk(0, f0.clone()));
+            let c1 = Dispatch::new(mk(1, f1.clone()));
             *MODEL.lock().unwrap() = Some(Model {
                 slots: (0..NSLOTS).map(|_| None).collect(),
                 tasks: (0..NTASKS).map(|_| None).collect(),
@@ -661,7 +703,7 @@ impl Engine for SpanEngine {
             let log = rec::take_log();
             let mo = MODEL.lock().unwrap().take();
             if let Some(mo) = mo {
-                oracle(&steps, &mo, &log);
+                oracle(&steps, &mo, &log, hid);
             }
         };
         simulate(&plan.to_string(), &sched, None, body, finish)
@@ -669,7 +711,7 @@ impl Engine for SpanEngine {
 }
 
 /// Compare the collectors' actual call sequence with the expected one and run the A3 automaton.
-fn oracle(steps: &[Value], mo: &Model, log: &[Rec]) {
+fn oracle(steps: &[Value], mo: &Model, log: &[Rec], per_handle: bool) {
     if let Some(n) = mo.notes.first() {
         violation("enabled-mismatch", n.clone());
         return;
@@ -677,10 +719,53 @@ fn oracle(steps: &[Value], mo: &Model, log: &[Rec]) {
     // (k, id) -> uid from new_span records
     let mut uid_of: HashMap<(usize, u64), u64> = HashMap::new();
     let mut actual: Vec<Exp> = vec![];
+    // per-handle ids (a collector whose clone_span returns a fresh id): alias -> id returned by new_span, and the
+    // life of every issued id (true = its handle has been closed)
+    let mut alias: HashMap<(usize, u64), u64> = HashMap::new();
+    let mut id_closed: HashMap<(usize, u64), bool> = HashMap::new();
     for r in log {
         if !matches!(r.kind, "new_span" | "clone_span" | "try_close" | "enter" | "exit" | "record" | "follows_from" | "event") {
             continue;
         }
+        let raw = r.id;
+        let mut r = r.clone();
+        if r.kind != "event" {
+            if let Some(c) = id_closed.get(&(r.k, raw)) {
+                if *c && per_handle {
+                    violation("use-after-handle-close", format!("collector {} received {} with id {} after the handle that owned this id was closed (per-handle ids)", r.k, r.kind, raw));
+                    return;
+                }
+            }
+        }
+        match r.kind {
+            "new_span" => {
+                id_closed.insert((r.k, raw), false);
+            }
+            "clone_span" if r.id2 != 0 => {
+                let root = alias.get(&(r.k, raw)).copied().unwrap_or(raw);
+                alias.insert((r.k, r.id2), root);
+                id_closed.insert((r.k, r.id2), false);
+            }
+            "try_close" => {
+                if per_handle {
+                    match id_closed.get_mut(&(r.k, raw)) {
+                        Some(c) if !*c => *c = true,
+                        Some(_) => {
+                            violation("handle-closed-twice", format!("collector {} received a second try_close for id {} (per-handle ids: one id per handle)", r.k, raw));
+                            return;
+                        }
+                        None => {}
+                    }
+                }
+            }
+            _ => {}
+        }
+        // from here on ids are the span's own (root) id
+        r.id = alias.get(&(r.k, r.id)).copied().unwrap_or(r.id);
+        if r.kind != "clone_span" {
+            r.id2 = alias.get(&(r.k, r.id2)).copied().unwrap_or(r.id2);
+        }
+        let r = &r;
         // id spaces are disjoint: a call carrying another collector's id went to the wrong collector
         let lo = 1 + r.k as u64 * 1_000_000;
         let in_space = |id: u64| id == 0 || (id >= lo && id < lo + 1_000_000);
@@ -740,6 +825,14 @@ fn oracle(steps: &[Value], mo: &Model, log: &[Rec]) {
                     _ => {}
                 }
             }
+        }
+    }
+    if per_handle {
+        let mut open: Vec<(usize, u64)> = id_closed.iter().filter(|(_, c)| !**c).map(|(k, _)| *k).collect();
+        open.sort();
+        if let Some((k, id)) = open.first() {
+            violation("handle-never-closed", format!("at quiescence collector {k} never received try_close for id {id} although every handle was dropped (per-handle ids)"));
+            return;
         }
     }
     for ((k, uid), n) in &handles {
